@@ -841,7 +841,7 @@ func (e *Engine) decideCmp(st *State, op token.Token, a, b *Val, pos token.Pos) 
 			return outs
 		}
 	}
-	cur := st.relOf(a, b)
+	cur := e.tightenInt(st, a, b, st.relOf(a, b))
 	want := opRel(op)
 	if cur&^want == 0 {
 		return []condOut{{st, true}}
@@ -880,4 +880,64 @@ func (s *State) lastReadOf(v *Val) *Event {
 		}
 	}
 	return nil
+}
+
+// tightenInt uses what the path already knows about an integer value and the neighbours of an integer constant: x > c−1 ⇔ x ≥ c,
+// x < c+1 ⇔ x ≤ c. So `ttl >= 0` and `ttl > -1` are one test, wherever each form is written.
+func (e *Engine) tightenInt(st *State, a, b *Val, cur uint8) uint8 {
+	flip := func(r uint8) uint8 {
+		var o uint8
+		if r&RLt != 0 {
+			o |= RGt
+		}
+		if r&REq != 0 {
+			o |= REq
+		}
+		if r&RGt != 0 {
+			o |= RLt
+		}
+		return o
+	}
+	isInt := func(v *Val) bool {
+		if v == nil || v.Type == nil {
+			return false
+		}
+		bt, ok := v.Type.Underlying().(*types.Basic)
+		return ok && bt.Info()&types.IsInteger != 0
+	}
+	constInt := func(v *Val) (int64, bool) {
+		if v == nil || v.Kind != KConst || v.Const == nil || v.Const.Kind() != constant.Int {
+			return 0, false
+		}
+		n, ok := constant.Int64Val(v.Const)
+		return n, ok && n > -1<<62 && n < 1<<62
+	}
+	x, c, swapped := a, b, false
+	if _, ok := constInt(b); !ok {
+		x, c, swapped = b, a, true
+		cur = flip(cur)
+	}
+	n, ok := constInt(c)
+	if !ok || !isInt(x) {
+		if swapped {
+			cur = flip(cur)
+		}
+		return cur
+	}
+	lo := st.relOf(x, e.IntConst(n-1))
+	hi := st.relOf(x, e.IntConst(n+1))
+	if lo&RGt == 0 { // x ≤ n−1
+		cur &= RLt
+	} else if lo&^RGt == 0 { // x > n−1
+		cur &= REq | RGt
+	}
+	if hi&RLt == 0 { // x ≥ n+1
+		cur &= RGt
+	} else if hi&^RLt == 0 { // x < n+1
+		cur &= RLt | REq
+	}
+	if swapped {
+		cur = flip(cur)
+	}
+	return cur
 }
